@@ -152,7 +152,10 @@ def one(args):
                                cwd=d, capture_output=True, text=True)
             if p.returncode != 0 or not os.path.exists(outp):
                 return dict(program=name, problem=f'assembler failed for format {fmt}', stderr=(p.stderr or p.stdout)[-300:])
-            maps[fmt] = DECODERS[fmt](open(outp).read())
+            try:
+                maps[fmt] = DECODERS[fmt](open(outp).read())
+            except Exception as ex:  # noqa
+                return dict(program=name, source=src, problem=f'{fmt} output cannot be decoded: {type(ex).__name__}: {ex}')
             image = open(os.path.join(d, 'p.bin'), 'rb').read()
     ref = maps['intel_hex']
     for fmt, m in maps.items():
